@@ -61,3 +61,5 @@ _c13("K13-sunion-bitset", "c13_simple_union_bitset_block", ["SimpleUnion::{build
 _c13("K13-disj-p2", "c13_disjunction_msm2_prog2", ["Disjunction::<ConstScorer<Arr>,SumCombiner>::{new,advance,doc,score}", "BinaryHeap<ScorerWrapper<_>>", "DocSet::seek (default)"],
      "3 leaves x <=2 docs, minimum_matches_required = 2, programs of 2 calls; unwind 5 + swap loops 20",
      title="Disjunction(min-should-match 2) = docs in >=2 leaves; score = sum of matching", tiers="t", unwindset=[("swap_nonoverlapping", 20)], timeout=900)
+
+from registry_m import *  # noqa
